@@ -11,7 +11,7 @@ import Mathlib.Algebra.BigOperators.NatAntidiagonal
 namespace Ymq.Wied
 open Polynomial Matrix
 
-variable {F : Type*} [Field F] {n : ℕ}
+variable {F : Type*} [CommRing F] [Nontrivial F] {n : ℕ}
 
 /-- the scalar Krylov sequence `s_k = w · M^k · v` (`w` a row, `v` a column; `_detp4` uses
 `w = e_0` and the Fibonacci start vector) -/
